@@ -140,10 +140,18 @@ Proof.
   unfold column at 1, min_needs_rows at 1. rewrite !map_length, seq_length. reflexivity.
 Qed.
 
+Lemma min_needs_gen_ok_inv t K T pf Kc N r d : min_needs_gen t K T pf Kc N r = Ok d ->
+  d = combine (map fst order_table) (map (column (min_needs_rows (needs_cap K T pf) r N)) (seq 0 9)).
+Proof.
+  unfold min_needs_gen. destruct (Nat.ltb (min_len r) N); [discriminate|].
+  match goal with |- (if ?c then _ else _) = _ -> _ => destruct c end; [|discriminate].
+  intro H. injection H as <-. reflexivity.
+Qed.
+
 Lemma min_needs_ok_inv K T pf Kc N r d : min_needs K T pf Kc N r = Ok d ->
   d = combine (map fst order_table) (map (column (min_needs_rows (needs_cap K T pf) r N)) (seq 0 9)).
 Proof.
-  unfold min_needs. destruct (Nat.ltb (min_len r) N); [discriminate|].
+  unfold min_needs, min_needs_gen. destruct (Nat.ltb (min_len r) N); [discriminate|].
   match goal with |- (if ?c then _ else _) = _ -> _ => destruct c end; [|discriminate].
   intro H. injection H as <-. reflexivity.
 Qed.
@@ -515,9 +523,9 @@ Proof. reflexivity. Qed.
 
 Theorem min_needs_accepts K T pf Kc N r :
   r1_nonneg r -> (N <= min_len r)%nat -> 0 <= needs_cap K T pf -> needs_cap K T pf <= Kc * (1 + eps4) ->
-  exists d, min_needs K T pf Kc N r = Ok d.
+  forall t, exists d, min_needs_gen t K T pf Kc N r = Ok d.
 Proof.
-  intros Hr Hlen Hc0 Hc1. unfold min_needs.
+  intros Hr Hlen Hc0 Hc1 t. unfold min_needs_gen.
   destruct (Nat.ltb_spec (min_len r) N) as [H|_]; [lia|].
   set (cap := needs_cap K T pf) in *.
   assert (W : within_limits cap (min_needs_rows cap r N) = true).
@@ -538,5 +546,5 @@ Proof.
     rewrite L in Hin. unfold min_needs_rows in Hin.
     apply in_combine_map in Hin. subst row. change (validator_avail r m) with (month_foods r m).
     apply usage_ok_consume; [apply month_foods_nonneg; exact Hr|exact Hc0|left; lra]. }
-  rewrite W, S, P. simpl. eexists. reflexivity.
+  rewrite W, S, P. rewrite orb_true_r. simpl. eexists. reflexivity.
 Qed.
